@@ -195,6 +195,7 @@ func init() {
 			if s.kind != sConc {
 				in.fail("strings.Repeat of symbolic string")
 			}
+			n = in.tryConcretize(n)
 			if n.IsConst() {
 				if n.I < 0 {
 					panic(&goPanic{msg: "strings: negative Repeat count", pos: in.curPos})
@@ -886,7 +887,7 @@ func (in *Interp) sprintf(format *Str, args []Value) Value {
 		case '*':
 			if i+1 < len(f) && f[i+1] == 'd' {
 				i++
-				w := next().(*sym.Term)
+				w := in.tryConcretize(next().(*sym.Term))
 				t := next().(*sym.Term)
 				digits := in.strItoa(t)
 				// left pad with spaces to width w
@@ -942,6 +943,7 @@ func (in *Interp) fmtValue(v Value) *Str {
 // strItoa: decimal rendering of an int term; symbolic values are assumed (obligation) to lie in [0, 10^10).
 func (in *Interp) strItoa(t *sym.Term) *Str {
 	st := in.St
+	t = in.tryConcretize(t)
 	if t.IsConst() {
 		return concStr(fmt.Sprint(t.I))
 	}
@@ -1113,9 +1115,28 @@ func (in *Interp) scanLines(s *Str) []*Str {
 		v := in.toView(p)
 		ln := v.length
 		hasCR := st.And(st.Lt(st.Int(0), ln), st.Eq(v.at(st.Sub(ln, st.Int(1))), st.Int('\r')))
-		nl := st.Ite(hasCR, st.Sub(ln, st.Int(1)), ln)
+		nl := ln
+		if !hasCR.IsFalse() && in.Sol.CheckWith(hasCR) != sym.RUnsat {
+			nl = st.Ite(hasCR, st.Sub(ln, st.Int(1)), ln)
+		}
 		vv := v
 		out[i] = &Str{kind: sView, length: nl, max: v.max, origin: v.origin, at: func(i *sym.Term) *sym.Term { return vv.at(i) }}
 	}
 	return out
+}
+
+// tryConcretize replaces an Int term by a constant when the path condition admits exactly one value for it.
+func (in *Interp) tryConcretize(t *sym.Term) *sym.Term {
+	if t.IsConst() || t.Sort != sym.SInt || in.spec {
+		return t
+	}
+	vals, err := in.Sol.Values([]*sym.Term{t})
+	if err != nil {
+		return t
+	}
+	c := in.St.Int(vals[0])
+	if in.Sol.CheckWith(in.St.Not(in.St.Eq(t, c))) == sym.RUnsat {
+		return c
+	}
+	return t
 }
